@@ -337,15 +337,17 @@ Definition run1 (cfg : config) (o : op) (s t : ty) (p : Z) : list Z :=
 
 (* The canonical output is the run-length encoding of the per-payload pairs (type code, d), as
    triples [count; type code; d]: d is the result minus the source payload when the result is of an
-   integer type (codes 2..9), the result payload otherwise.  (An exhaustive range of an integer type
+   integer type (codes 2..9) and the source is not a float, the result payload otherwise.  (An exhaustive range of an integer type
    converted to an integer type is then three numbers instead of two per value.) *)
 Definition is_int_code (tc : Z) : bool := (2 <=? tc) && (tc <=? 9).
-Definition delta (tc p w : Z) : Z := if is_int_code tc then w - p else w.
-Definition undelta (tc p d : Z) : Z := if is_int_code tc then d + p else d.
+Definition is_float_ty (s : ty) : bool := match s with TFloat | TDouble => true | _ => false end.
+Definition use_delta (s : ty) (tc : Z) : bool := is_int_code tc && negb (is_float_ty s).
+Definition delta (s : ty) (tc p w : Z) : Z := if use_delta s tc then w - p else w.
+Definition undelta (s : ty) (tc p d : Z) : Z := if use_delta s tc then d + p else d.
 
 Definition pair_of (l : list Z) : Z * Z := match l with [a; b] => (a, b) | _ => (-3, 0) end.
 Definition enc1 (cfg : config) (o : op) (s t : ty) (p : Z) : Z * Z :=
-  let r := pair_of (run1 cfg o s t p) in (fst r, delta (fst r) p (snd r)).
+  let r := pair_of (run1 cfg o s t p) in (fst r, delta s (fst r) p (snd r)).
 
 Definition pair_eqb (a b : Z * Z) : bool := (fst a =? fst b) && (snd a =? snd b).
 Fixpoint rle (l : list (Z * Z)) : list (nat * (Z * Z)) :=
@@ -380,7 +382,7 @@ Definition enc1_fast (cfg : config) (o : op) (s t : ty) : Z -> Z * Z :=
                              | Some v => out_of_res (f v)
                              | None => [-3; 0]
                              end) in
-           (fst r, delta (fst r) p (snd r)).
+           (fst r, delta s (fst r) p (snd r)).
 
 Definition run_with (cfg : config) (c : case) : list Z :=
   flatten3 (rle (map (enc1_fast cfg (c_op c) (c_src c) (c_tgt c)) (payloads c))).
@@ -499,10 +501,10 @@ Fixpoint check_rle (o : op) (s t : ty) (ps : list Z) (cur tc d : Z) (rest : list
   match ps with
   | [] => (cur =? 0) && match rest with [] => true | _ => false end
   | p :: ps' =>
-    if 0 <? cur then check1 o s t p tc (undelta tc p d) && check_rle o s t ps' (cur - 1) tc d rest
+    if 0 <? cur then check1 o s t p tc (undelta s tc p d) && check_rle o s t ps' (cur - 1) tc d rest
     else match rest with
          | n :: tc' :: d' :: rest' =>
-           (0 <? n) && check1 o s t p tc' (undelta tc' p d') && check_rle o s t ps' (n - 1) tc' d' rest'
+           (0 <? n) && check1 o s t p tc' (undelta s tc' p d') && check_rle o s t ps' (n - 1) tc' d' rest'
          | _ => false
          end
   end.
